@@ -74,7 +74,7 @@ CHECKS = {
    "DESIGN.md §3 C16", "harness"),
  "C04": ("fault_enumeration",
    "property-based scenario generation (proptest) + exhaustive fault injection: every connection-failure kind at every byte boundary of the scenario's request and response streams on the deterministic simulated connection, virtual-clock watchdog as hang detector",
-   "Per generated scenario (1-5 pending operations/streams, merge order, read/write segmentation) the response and request streams are fixed by a fault-free run; then EOF and reset after every byte, seven other I/O error kinds at and just behind every PDU boundary, undecodable frames and unbind at every PDU boundary, write failure and zero-length write after every request byte (requests up to 70 KB) and last-handle drop are injected and each run is judged (termination, delivered responses intact, all other pending work fails, later operations fail immediately, transport closed). A second lane does the same for searches that span several requests (PagedResults streams: fault after every response PDU, right behind a page result or after the follow-up request).",
+   "Per generated scenario (1-5 pending operations/streams, merge order, read/write segmentation) the response and request streams are fixed by a fault-free run; then EOF and reset after every byte, seven other I/O error kinds at and just behind every PDU boundary, undecodable frames at every PDU boundary, unbind at every PDU boundary and inside every PDU, write failure and zero-length write after every request byte (requests up to 70 KB) and last-handle drop are injected and each run is judged (termination, delivered responses intact, all other pending work fails, later operations fail immediately, transport closed). A second lane does the same for searches that span several requests (PagedResults streams: fault after every response PDU, right behind a page result or after the follow-up request).",
    "Trusted base: SIM (scripted transport with fault injection, paused clock => the watchdog firing proves a future can never complete; a reader polling a finished transport >2000 times is parked and reported as livelock). Client-side events are injected at driver quiescence only.",
    "DESIGN.md §3 C04", "harness"),
  "C05": ("exploration",
@@ -93,7 +93,7 @@ CHECKS = {
    "Trusted base: harness BER reader (classification of 'definitely not an envelope'), SIM. A panic in the caller's task on a well-enveloped ill-formed result is outside the statement and only labelled.",
    "DESIGN.md §3 C11, Appendix D", "harness"),
  "C17": ("fault_enumeration",
-   "exhaustive enumeration of the establishment fault product (scheme x verification x server certificate x StartTLS reply x post-reply behaviour, 168 cells) with generated parameters per cell, against an adversarial TLS server on real loopback sockets that records every raw byte",
+   "exhaustive enumeration of the establishment fault product (scheme x verification x server certificate x StartTLS reply x post-reply behaviour, 210 cells) with generated parameters per cell, against an adversarial TLS server on real loopback sockets that records every raw byte",
    "Every adversarial establishment behaviour is enumerated (StartTLS replies: success, non-zero code with the server still ready to handshake, garbage, close, non-extended response, a foreign-id success ahead of the real refusal; plus a 28-code sweep; the settings object is built in five ways: new()/default() base, two builder-call orders, a clone, the blocking API); oracle: only the StartTLS request and TLS records travel in cleartext, Ok iff TLS was really established under the effective trust settings, operations after Ok travel inside TLS and never see forged cleartext responses; a client-side hang until the guard is a violation because the scripted server always acts immediately.",
    "Trusted base: native-tls/OpenSSL acceptor, committed test PKI (/verif/tls), harness BER/request decoder. Real sockets and wall time; env-* problems (bind, 20 s guard) yield exit 2.",
    "DESIGN.md §3 C17", "harness"),
